@@ -868,6 +868,7 @@ def own_violated(res):
         how = g.get('assigned') or {}
         walked = g.get('walked') or {}
         rule_ok = g.get('rule_ok') or {}
+        squeezed = g.get('squeezed') or {}
         for cpt, f, t, size, stretch in g['edges']:
             if f[0] not in sol or t[0] not in sol:
                 continue
@@ -876,6 +877,7 @@ def own_violated(res):
                 bad.append({'ax': ax, 'kind': 'ge' if stretch else 'eq', 'cpt': cpt, 'f': f, 't': t, 'size': size,
                             'slack': fstr(slack), 'how_f': how.get('|'.join(f)), 'how_t': how.get('|'.join(t)),
                             'rule_f': rule_ok.get('|'.join(f)), 'rule_t': rule_ok.get('|'.join(t)),
+                            'squeezed_f': bool(squeezed.get('|'.join(f))), 'squeezed_t': bool(squeezed.get('|'.join(t))),
                             'f_on_walk_of_t': '|'.join(f) in walked.get('|'.join(t), ['|'.join(f)]),
                             't_on_walk_of_f': '|'.join(t) in walked.get('|'.join(f), ['|'.join(t)])})
         for n, members in g['cnodes'].items():
@@ -902,6 +904,12 @@ def graph_signature(item):
         # one end was positioned by the two-known-nodes branch along a walked path that does not contain
         # this edge: path_to_closest_known selected another placed neighbour (it minimises pos - size)
         return 'Graph.assign_stretchy:stretchy-ge-violated:unwalked-neighbour'
+    if (str(hf).startswith('between') and item.get('squeezed_f') and ht in RIGID) or \
+            (str(ht).startswith('between') and item.get('squeezed_t') and hf in RIGID):
+        # the stretch stage found its two placed end nodes CLOSER than the minimum extent of the path between
+        # them (lcapy prints "Inconsistent ... will not fit") because one of them was positioned rigidly by
+        # assign_fixed1 / the critical path without regard to this path
+        return 'Graph.assign_fixed:stretchy-ge-violated:squeezed-path'
     if hf in RIGID and ht in RIGID:
         # both ends were positioned rigidly (critical path / fixed offsets): the longest-path stage treats
         # fixed edges as one-directional
@@ -1205,6 +1213,9 @@ CORPUS = [
      'lines': ['NR1 1 2_2; down=1, fixed', 'W2 5 2_2; up', 'V1 3_3 7; up=0.5, size=3, fixed', 'Y1 2_2 3_3; right=1', 'FS1 1 5; down=1, size=3']},
     {'id': 'corpus_graph_rigid_eq', 'method': 'graph', 'opts': {'node_spacing': '2'},
      'lines': ['P1 1 4; right=1, fixed', 'I1 5 1; right=0.5', 'L1 5 4; right=2, fixed', 'P2 6 1; left=2']},
+    {'id': 'corpus_graph_squeezed', 'method': 'graph', 'opts': {'node_spacing': '2'},
+     'lines': ['Y1 1 7; right=1.75', 'Z1 7 2; right=1.75', 'O1 1 3; down', 'NR1 3 5; right=0.5', 'O 5 6; right, fixed',
+               'G1 2 4 1 2; down', 'R9 5 9; right=4', 'P2 6 4; right=1.5, fixed']},
     # lineq placer, symptom classes of Lineq.solve
     {'id': 'corpus_lineq_negative_stretch', 'method': 'lineq', 'opts': {'node_spacing': '1'},
      'lines': ['VM1 2 1; down=0.5, size=1', 'VM3 1 3; up=0.5', 'W2 2 3; up=0.75']},
@@ -1221,6 +1232,8 @@ CORPUS_WIT = {
     'corpus_graph_dangling': {'2': (0, 0), '3': (0, 1), '1': (0, F(1, 2)), '6': (0, 2)},
     'corpus_graph_unwalked': {'1': (0, 4), '2': (0, 1), '3': (0, 0), '4_3': (0, 2)},
     'corpus_graph_rigid_ge': {'1': (0, 3), '2_2': (0, 2), '5': (0, 0), '3_3': (1, 2), '7': (1, 5)},
+    'corpus_graph_squeezed': {'1': (0, 1), '7': (F(7, 4), 1), '2': (F(7, 2), 1), '3': (0, 0), '5': (1, 0), '6': (2, 0),
+                              '4': (F(7, 2), 0), '9': (5, 0)},
     'corpus_graph_rigid_eq': {'5': (0, 0), '1': (1, 0), '4': (2, 0), '6': (3, 0)},
     'corpus_lineq_negative_stretch': {'2': (0, 1), '1': (0, 0), '3': (0, 2)},
     'corpus_lineq_equation_dropped': {'1': (1, 0), '2': (1, 3), '3': (1, F(5, 2)), '8': (1, F(7, 2))},
